@@ -23,6 +23,8 @@ Expected(op, a, b) ==
     [] op \in {"v_dot", "v_dot_dir"}          -> <<Dot(a, b)>>
     [] op \in {"v_cross", "v_cross_dir"}      -> Cross(a, b)
     [] op \in {"v_dyadic", "v_dyadic_dir"}    -> Dyadic(a, b)
+    [] op = "v_from_magnitude_direction"  -> VScale(a[1], b)
+    [] op = "pv_from_magnitude_direction" -> <<a[1] * b[1], a[1] * b[2]>>
     [] op = "sd_trace"   -> <<Trace(SymEmbed(a))>>
     [] op = "sd_det"     -> <<Det(SymEmbed(a))>>
     [] op = "sd_cof"     -> SymOfDyad(Cofactors(SymEmbed(a)))
@@ -42,7 +44,7 @@ Expected(op, a, b) ==
     [] op = "d_mul_sd"   -> MatMul(a, SymEmbed(b))
     [] op = "d_mul_d"    -> MatMul(a, b)
 AllOps == {"pv_magsq", "pv_embed", "v_project", "pv_dot", "pv_cross", "pv_dyadic", "pv_dot_pdir", "pv_cross_pdir", "pv_dyadic_pdir",
-           "v_magsq", "v_dot", "v_cross", "v_dyadic", "v_dot_dir", "v_cross_dir", "v_dyadic_dir", "sd_trace", "sd_det", "sd_cof",
+           "v_from_magnitude_direction", "pv_from_magnitude_direction", "v_magsq", "v_dot", "v_cross", "v_dyadic", "v_dot_dir", "v_cross_dir", "v_dyadic_dir", "sd_trace", "sd_det", "sd_cof",
            "sd_adj", "sd_embed", "d_trace", "d_det", "d_transpose", "d_cof", "d_adj", "sd_mul_pv", "sd_mul_v", "sd_mul_sd", "sd_mul_d",
            "d_mul_pv", "d_mul_v", "d_mul_sd", "d_mul_d", "sd_mul_dir", "d_mul_dir", "sd_mul_pdir", "d_mul_pdir"}
 TOp == LET r == Events[l] IN
